@@ -19,7 +19,10 @@ MANIFEST = dict(
          "Windows emitter: C20_win_contract / C20_win_contract_cut (every tree, every operation, every cut of the notifications "
          "into reads: the action table queues exactly the per-operation contract, synthetic events via C14), C20_win_replay "
          "(replaying the contract of ANY operation, directories with content included, reproduces the tree: chain of exact "
-         "re-keys = prefix rename), C20_win_replay_history and C20_win_history (emitter over whole histories). FSEvents emitter: "
+         "re-keys = prefix rename), C20_win_replay_full (every history rendered as one notification stream, EVERY cut of it "
+         "into reads, oracles agreeing on each operation's own paths: the emitter queues the contracts and they replay to the "
+         "final tree), C20_win_flavour_F11 (every event has the right File/Dir flavour except deleted-directory events = F11), "
+         "C20_win_replay_history and C20_win_history (per-step oracles). FSEvents emitter: "
          "C20_fsevents_flat(+_depth) for every batch; C20_fsevents_contract (all operations, one operation per batch, no "
          "coalescing, recursive or not), C20_fsevents_replay, C20_fsevents_history (emitter over whole histories with the "
          "_fs_view carried along, under no-inode-reuse - necessity shown by C20_fsevents_inode_reuse_refuted); multi-operation "
